@@ -64,6 +64,11 @@ class Module:
         return ast.get_source_segment(self.text, node)
 
 
+def _norm(tree, pyx=False):
+    from .idioms import normalize
+    return normalize(tree)
+
+
 def _link(node, parent):
     node._parent = parent
     for ch in ast.iter_child_nodes(node):
@@ -105,15 +110,33 @@ class Program:
                     _, tree, info = pyxfront.desugar(text, rel)
                 except pyxfront.PyxError as e:
                     raise AnalysisIncomplete("PYXFRONT", rel, str(e))
-                mod = Module(name, rel, text, tree, pyx=info)
+                mod = Module(name, rel, text, _norm(tree, pyx=True), pyx=info)
             else:
                 try:
                     tree = ast.parse(text, filename=rel)
                 except SyntaxError as e:
                     raise AnalysisIncomplete("PARSE", rel, "syntax error line %s: %s" % (e.lineno, e.msg))
-                mod = Module(name, rel, text, tree)
+                mod = Module(name, rel, text, _norm(tree))
             self.modules[name] = mod
             self.by_path[rel] = mod
+        self._inline_new_helpers()
+
+    def _inline_new_helpers(self):
+        """functions that are not in the frozen inventory are transparent: inline them into their callers (sa/inline.py)"""
+        from .inline import Inliner, _relink
+        inl = Inliner(self)
+        self.inlined = []
+        if not inl.any_helpers():
+            return
+        inv = inl.inv
+        for mn, m in self.modules.items():
+            for q, lst in m.all_functions.items():
+                for fn in lst:
+                    new = inl.inline_function(fn, mn)
+                    if new is not fn:
+                        fn.body = new.body
+                        _relink(fn, getattr(fn, "_parent", None), m)
+                        self.inlined.append("%s.%s" % (mn, q))
 
     def module(self, name):
         if name not in self.modules:
